@@ -59,6 +59,16 @@ pub fn dispatch(kind: &str, a: &[&str]) -> Option<String> {
             drain(&mut rd, &mut out, d.len() + 2);
             out.join(" ")
         }
+        // tr.subslice <hex> <n>: a slice reader over the first n bytes of a larger allocation (what lies
+        // behind the window is real memory: an off-by-one read is not caught by the allocator)
+        ("tr.subslice", [h, n]) => {
+            let d = unhex(h);
+            let n = p(n).min(d.len());
+            let mut rd = TokenReader::from_slice(&d[..n]);
+            let mut out = Vec::new();
+            drain(&mut rd, &mut out, n + 2);
+            out.join(" ")
+        }
         // tr.stream <cap> <sched> <hex> [recycled-fill-byte]
         ("tr.stream", [cap, sched, h]) | ("tr.stream", [cap, sched, h, _]) => {
             let d = unhex(h);
